@@ -207,7 +207,7 @@ class Engine:
             for e in res.errors:
                 raise tlcmod.MachineryError("Reloc.tla: law %s fails: %s" % (e.name, e.text[:1500]))
         # ---- T
-        jobs = gen_jobs(ctx, 220 if thorough else 40)
+        jobs = gen_jobs(ctx, 220 if thorough else 32)
         if only is not None:
             jobs = [j for j in jobs if j["id"] == only]
         traces = []
@@ -219,6 +219,15 @@ class Engine:
             aims[job["id"]] = job["aim"]
             c = "%s:%s:%s" % (arch_tag(job["arch"]), job["aim"]["type"], c12.classify(tr).split(":")[0])
             outcomes[c] = outcomes.get(c, 0) + 1
+            ctx.count(job["id"])
+        # directly generated x86_64 objects (several sections per object, merged at offsets, rel32 with
+        # addends other than -4, relocations against local / global / other-object symbols)
+        for job in c12.gen_jobs(ctx, 160 if thorough else 30, seed_tag="c11gen"):
+            if only is not None and job["id"] != only:
+                continue
+            tr, out, objs = objgen.run_job(job, lambda t: c12.REL_SIZES.get(t, 0), job["id"])
+            traces.append(tr)
+            aims[job["id"]] = {"type": "generated", "d": 0, "line": ""}
             ctx.count(job["id"])
         ctx.cov["outcomes_by_type"] = dict(sorted(outcomes.items()))
         for tr in traces[:: max(1, len(traces) // 3)]:
@@ -237,7 +246,7 @@ class Engine:
             spurious += sp
         # ---- E
         recs = []
-        n_wide = 240 if thorough else 60
+        n_wide = 240 if thorough else 45
         for arch in WIDE_CASES:
             k = 0
             tries = 0
